@@ -202,7 +202,10 @@ class CFG(object):
 
     # expression expansion ---------------------------------------------------
     def _branch(self, expr, t, f, ctx, stmt) -> Node:
-        """Build nodes evaluating *expr* as a condition; return entry."""
+        """Build nodes evaluating *expr* as a condition; return entry.
+        Conditions of assert statements get kind 'assert' (they are not
+        control decisions of the program: rules that enumerate the tests a
+        statement depends on must not see them)."""
         if isinstance(expr, ast.BoolOp):
             is_or = isinstance(expr.op, ast.Or)
             nxt_entry = None
@@ -220,7 +223,8 @@ class CFG(object):
             b = self._branch(expr.body, t, f, ctx, stmt)
             o = self._branch(expr.orelse, t, f, ctx, stmt)
             return self._branch(expr.test, b, o, ctx, stmt)
-        n = self._new('test', expr, stmt)
+        n = self._new('assert' if isinstance(stmt, ast.Assert) else 'test',
+                      expr, stmt)
         self._edge(n, t, 'T')
         self._edge(n, f, 'F')
         self._exc(n, ctx)
